@@ -73,6 +73,9 @@ BODY_KINDS = {
     "multipart": {"multipart/form-data": {"schema": FILE_OBJ}},
     "octet": {"application/octet-stream": {"schema": {"type": "string", "format": "binary"}}},
     "text": {"text/plain": {"schema": {"type": "string"}}},
+    "octet-noschema": {"application/octet-stream": {}},   # OAS 3.1 way of describing a raw binary body
+    "json-noschema": {"application/json": {}},
+    "multipart-noschema": {"multipart/form-data": {}},
     "json+multipart": {"application/json": {"schema": R("Item")}, "multipart/form-data": {"schema": FILE_OBJ}},
     "json+form": {"application/json": {"schema": R("Item")}, "application/x-www-form-urlencoded": {"schema": FORM_OBJ}},
 }
@@ -90,6 +93,9 @@ BODY_ARGS = {
     "multipart": [({"files": {"$files": {"file": B64_FILE}}}, {"ctype": "multipart/form-data", "contains_b64": B64_FILE})],
     "octet": [({"bytes_content": {"$bytes": B64_FILE}}, {"ctype": "application/octet-stream", "raw_b64": B64_FILE})],
     "text": [({"bytes_content": {"$bytes": "aGVsbG8="}}, {"ctype": "text/plain", "raw_b64": "aGVsbG8="})],
+    "octet-noschema": [({"bytes_content": {"$bytes": B64_FILE}}, {"ctype": "application/octet-stream", "raw_b64": B64_FILE})],
+    "json-noschema": [({"body": {"a": 1}}, {"ctype": "application/json", "json": {"a": 1}})],
+    "multipart-noschema": [({"files": {"$files": {"file": B64_FILE}}}, {"ctype": "multipart/form-data", "contains_b64": B64_FILE})],
     "json+multipart": [({"body": ITEM_BODIES[0]}, {"ctype": "application/json", "json": ITEM_BODIES[0]}),
                        ({"files": {"$files": {"file": B64_FILE}}}, {"ctype": "multipart/form-data", "contains_b64": B64_FILE})],
     "json+form": [({"body": ITEM_BODIES[1]}, {"ctype": "application/json", "json": ITEM_BODIES[1]}),
